@@ -182,6 +182,11 @@ def check_field(rec: Rec, w: int, v: int, nontrivial=True):
         return bad("construct/UnsignedByteField/exception/" + type(e).__name__, repr(e), exp)
     if bytes(f.as_bytes) != exp:
         bad("views/UnsignedByteField.as_bytes", bytes(f.as_bytes), exp)
+    handed = f.as_bytes
+    if isinstance(handed, bytearray):  # the caller owns what it was handed: appending to it must not reach the field
+        handed += b"\xaa\xbb"
+        if bytes(f.as_bytes) != exp or len(f) != w:
+            bad("independence/UnsignedByteField.as_bytes/field-changed-through-the-octets-it-handed-out", bytes(f.as_bytes), exp)
     if int(f) != v or f.value != v:
         bad("views/UnsignedByteField.int", (int(f), f.value), v)
     if len(f) != w or f.byte_len != w:
@@ -353,6 +358,15 @@ def check_history(rec: Rec, w: int, v0: int, ops):
             return
         if accepted:
             cur = new
+            # equality with the octets of the new value, asked BEFORE any other view is read (a view that is computed lazily must
+            # not make the answer depend on what was read earlier)
+            try:
+                e_oct = (f == cur.to_bytes(w, "big")) if w else True
+            except Exception:  # noqa: BLE001 - comparing with octets is optional API; only a wrong answer is judged
+                e_oct = True
+            if e_oct is False:
+                rec.violation(f"C20.setter/value={how}/not-equal-to-its-own-octets-before-the-octet-view-was-read/width={w}", case, {"step": step}, True)
+                return
             if int(f) != cur:
                 rec.violation(f"C20.setter/value={how}/value-not-taken/width={w}", case, {"step": step, "int": int(f)}, cur)
                 return
@@ -706,6 +720,33 @@ def build_for_eq(u, f, how):
     return u.UnsignedByteField.from_bytes(v.to_bytes(w, "big"))
 
 
+def check_int_subclasses(rec: Rec):
+    """an integer is an integer: values that are instances of int subclasses (an IntEnum entity ID, a bool) build and assign like
+    the plain number"""
+    import enum
+
+    u = _u()
+    for w in WIDTHS:
+        for v in (0, 1, 0x7F, (1 << (8 * w)) - 1):
+            E = enum.IntEnum("E", {"X": v})
+            vals = [E.X] + ([bool(v)] if v in (0, 1) else [])
+            for val in vals:
+                case = {"kind": "intsub", "w": w, "v": str(v), "type": type(val).__name__}
+                rec.case(True, ops=4)
+                exp = int(v).to_bytes(w, "big")
+                try:
+                    f = u.UnsignedByteField(val, w)
+                    g = u.UnsignedByteField(0 if v else 1, w)
+                    g.value = val
+                    got = (bytes(f.as_bytes), f.value == v, len(f), bytes(g.as_bytes), g.value == v, f == g)
+                except Exception as e:
+                    rec.violation(f"C20.construct/UnsignedByteField/int-subclass/exception/{type(e).__name__}", case, repr(e), exp)
+                    continue
+                if got != (exp, True, w, exp, True, True):
+                    rec.violation("C20.views/UnsignedByteField/int-subclass-value-not-taken", case, [str(x) for x in got], [str(x) for x in (exp, True, w, exp, True, True)])
+    rec.outcome("int-subclasses-ok")
+
+
 def check_hash_dependence(rec: Rec):
     """hash must not ignore the width, nor the value (weakest form, see ASSUMPTIONS)"""
     u = _u()
@@ -882,6 +923,7 @@ def run_shard(item):
             rec.sample({"independence_history": "g = ByteFieldGenerator.from_bytes(1, b'\\x21'); g.value = 0xde; then every entry point builds 0x21 again",
                         "expected": "each new field reads 0x21, g keeps 0xde, every field handed out keeps its views while later cases run"}, limit=1)
     elif kind == "eqhash":
+        check_int_subclasses(rec)
         fields = eq_fields()
         hows = ("ctor", "gen", "bytes", "from_bytes(memoryview)")
         n = 0
@@ -988,6 +1030,8 @@ def replay(case):
         check_alias(rec, case["w"], int(case["v"]), case["entry"], case["how"])
     elif k == "eq":
         check_eq_pair(rec, (case["a"][0], int(case["a"][1])), (case["b"][0], int(case["b"][1])), *case["how"])
+    elif case["kind"] == "intsub":
+        check_int_subclasses(rec)
     elif k == "hashdep":
         check_hash_dependence(rec)
     elif k == "helper":
